@@ -144,6 +144,14 @@ Call ==
   /\ viol' = viol
   /\ UNCHANGED <<scen, ffBuf, topInv, runlog, prev, runinfo>>
 
+\* the property's own code swallowed the panic that carried a fatal signal (a deferred recover() in user code): the signal was raised all the same,
+\* the call just did not end there -- the test case has failed without stopping
+Recovered ==
+  /\ Is("recovered") /\ Adv
+  /\ SetObs(IF cur.obs.sig = "fatal" THEN [cur.obs EXCEPT !.sig = "nonfatal", !.site = "NF"] ELSE cur.obs)
+  /\ viol' = viol
+  /\ UNCHANGED <<scen, ffBuf, topInv, runlog, prev, runinfo>>
+
 \* a context obtained while the property function is still running must be live
 Ctx ==
   /\ Is("ctx") /\ Adv /\ EUnch
@@ -159,7 +167,7 @@ InvEnd ==
 \* events the engine specification does not talk about (custom-function brackets etc.)
 Handled == {"scen.end", "ctx", "scen.begin", "run.begin", "h.failfiles", "h.ff.load", "h.phase", "h.once.begin", "inv.begin", "draw", "call", "inv.end",
             "h.once.end", "h.shrink.begin", "h.accept", "h.shrink.end", "h.docheck.ret", "h.save", "tb.logf", "tb.errorf", "tb.failnow",
-            "run.end", "fs"}
+            "run.end", "fs", "recovered"}
 Other ==
   /\ l <= Len(Trace) /\ Trace[l].ev \notin Handled
   /\ Adv /\ EUnch /\ viol' = viol /\ UNCHANGED <<scen, ffBuf, topInv, runlog, prev, runinfo>>
@@ -284,7 +292,7 @@ V_FS(files) ==
            \cup If(\E x \in f : ~x.ok \/ (x.ok /\ x.buf.id # buf.id), "persist_mismatch")
            \cup If(\E x \in f : ~x.glob, "failfile_name")
       ELSE {})
-     \cup If(reported /\ ~cfg.nofailfile /\ cfg.failfile = "" /\ Cardinality(newOnes) # 1, "no_failfile_written")
+     \cup If(reported /\ ~cfg.nofailfile /\ Cardinality(newOnes) # 1, "no_failfile_written")
      \cup If((~reported \/ cfg.nofailfile) /\ newOnes # {}, "unexpected_failfile")
      \cup If(\E i \in 1..Len(files) : files[i].tmp, "tmp_left_behind")
 
@@ -293,7 +301,7 @@ FS ==
   /\ EUnch /\ viol' = viol \cup V_FS(Ev.files)
   /\ UNCHANGED <<scen, ffBuf, topInv, runlog, prev, runinfo>>
 
-Next == ScenEnd \/ Ctx \/ ScenBegin \/ RunBegin \/ FFList \/ FFLoad \/ Phase \/ OnceBegin \/ InvBegin \/ Draw \/ Call \/ InvEnd \/ Other
+Next == ScenEnd \/ Ctx \/ ScenBegin \/ RunBegin \/ FFList \/ FFLoad \/ Phase \/ OnceBegin \/ InvBegin \/ Draw \/ Call \/ Recovered \/ InvEnd \/ Other
         \/ OnceEnd \/ ShrinkBegin \/ Accept \/ ShrinkEnd \/ DoCheckRet \/ Save \/ TBLog \/ TBErrorf \/ TBFailNow \/ RunEnd \/ FS
 
 Spec == Init /\ [][Next]_vars
